@@ -142,6 +142,49 @@ theorem generated_eq_explicit (inv : Inv) (hs : Supported inv) (e : Expansion) (
   subst hee
   exact closureG_eq_evalE inv hs body fuel vs s
 
+/-- Names keep their meaning. In the generated code an identifier `x` written by the user in the body (with any `let`s of the
+    body in scope) denotes what it denotes in the explicit recursion - a `let`, one of the fn's own arguments/captures, or else
+    whatever `x` means in the enclosing scope (free function, const, prelude name, …) - for EVERY `x` other than the one name
+    the expansion gives its inner fn. The recursion's name chosen by the user does not occur: it names a macro. So a program is
+    outside this guarantee only if it uses the identifier of the hidden fn (`hiddenName`, fixed) as a value of its own. -/
+theorem names_resolve_as_written (inv : Inv) (h : inv.args ≠ []) (e : Expansion) (he : expand inv = some e)
+    (hidden : Name) (locals : List Name) (x : Name) (hx : x ≠ hidden) :
+    resolveG hidden e locals x = resolveE inv locals x := by
+  have hee : e = specExpansion inv := by
+    have := expand_eq inv h
+    rw [he] at this
+    exact Option.some.inj this
+  subst hee
+  exact resolveG_spec inv hidden locals x hx
+
+/-- The tokens of the local macro resolve as intended whatever the body declares: if no argument or capture is called like the
+    hidden fn, the callee of every recursive call is the hidden fn, and every name appended to the call (and every argument name)
+    is the inner fn's own parameter of that name - `let`s of the body cannot capture them (they are resolved at the macro's
+    definition, the top of the body). -/
+theorem call_resolves (inv : Inv) (h : inv.args ≠ []) (e : Expansion) (he : expand inv = some e)
+    (hidden : Name) (hh : hidden ∉ inv.args ++ inv.caps.map (·.1)) :
+    resolveCallG hidden e hidden = .hiddenFn ∧
+    (∀ p ∈ e.recCallTail, resolveCallG hidden e p.1 = .param p.1) ∧
+    (∀ a ∈ inv.args, resolveCallG hidden e a = .param a) := by
+  have hee : e = specExpansion inv := by
+    have := expand_eq inv h
+    rw [he] at this
+    exact Option.some.inj this
+  subst hee
+  refine ⟨?_, ?_, ?_⟩
+  · unfold resolveCallG resolveG
+    rw [if_neg (by simp), if_neg (fun hm => hh ((mem_specParams inv hidden).mp hm)), if_pos rfl]
+  · intro p hp
+    have hm : p.1 ∈ (specExpansion inv).params.map (·.1) :=
+      List.mem_map_of_mem (f := (·.1)) (show p ∈ (specExpansion inv).params from List.mem_append_right _ hp)
+    unfold resolveCallG resolveG
+    rw [if_neg (by simp), if_pos hm]
+  · intro a ha
+    have hm : a ∈ (specExpansion inv).params.map (·.1) :=
+      (mem_specParams inv a).mpr (List.mem_append_left _ ha)
+    unfold resolveCallG resolveG
+    rw [if_neg (by simp), if_pos hm]
+
 /-! ## Non-vacuity: concrete non-trivial instances of the hypotheses and of the conclusions -/
 
 /-- `rec_lambda!(f, |x: &mut X, y: &Y, z: &mut Z, w: &W| { |a: A, b: B| -> i64 { … } })`. -/
@@ -218,5 +261,23 @@ example : observe (closureG miswired sampleBody 10 [5, 1] sampleStore) ≠ obser
 -- … and a shared reference where a mutable one is expected is rejected (rustc: type error).
 example : (match closureG { specExpansion sampleInv with closureCallTail := [("w", .shared), ("z", .mutable), ("y", .shared), ("x", .mutable)] }
               sampleBody 10 [5, 1] sampleStore with | .error (.kind _) => true | _ => false) = true := by decide
+
+-- names_resolve_as_written / call_resolves: with the fixed hidden name a helper `tr`, a const, a local and the parameters all
+-- keep their meaning, and the recursive call reaches the hidden fn with the parameters `w, y, z, x` appended.
+example : hiddenName ∉ sampleInv.args ++ sampleInv.caps.map (·.1) := by decide
+example : ["tr", "LIM", "t", "b", "z"].map (resolveG hiddenName (specExpansion sampleInv) ["t"]) =
+    [.outer "tr", .outer "LIM", .loc "t", .param "b", .param "z"] := by decide
+example : ["tr", "LIM", "t", "b", "z"].map (resolveE sampleInv ["t"]) =
+    [.outer "tr", .outer "LIM", .loc "t", .param "b", .param "z"] := by decide
+example : resolveCallG hiddenName (specExpansion sampleInv) hiddenName = .hiddenFn := by decide
+-- The hypotheses are needed. If the inner fn were called like the user's recursion (seeded change C20_m10: `fn $name`) and the
+-- program also has a helper of that name, the helper's name is captured by the inner fn inside the body ...
+example : resolveG "tr" (specExpansion sampleInv) [] "tr" = .hiddenFn ∧ resolveE sampleInv [] "tr" = .outer "tr" := by decide
+-- ... and if it is called like a capture or an argument, the callee of the recursive call is that parameter (rustc: E0618);
+example : resolveCallG "z" (specExpansion sampleInv) "z" = .param "z" := by decide
+example : resolveCallG "a" (specExpansion sampleInv) "a" = .param "a" := by decide
+-- a `let` of the body called like the inner fn shadows it for the user's own uses only, not for the recursive call.
+example : resolveG "t" (specExpansion sampleInv) ["t"] "t" = .loc "t" ∧ resolveCallG "t" (specExpansion sampleInv) "t" = .hiddenFn := by
+  decide
 
 end Rlib.C20
